@@ -30,24 +30,27 @@ Proof. exact dec_net_enc. Qed.
 
 (* ---- the wire image of Message.WriteTo is ONE well-formed network-format value, a compound with
    exactly the expected keys; Message.ReadFrom of it returns the component and leaves the rest.
-   Guard msg_ok: strings < 2^15 bytes, lists < 2^31, and no argument list mixing strings and
-   components (the known finding C17.nbt.mixed-args, refuted below without the guard). *)
-Theorem C17_wire_wellformed_partial : forall m rest, msg_ok m = true ->
+   Guard msg_ok: strings < 2^15 bytes (the int16 length prefix), lists < 2^31 (the int32 count) - nothing
+   else: an argument list mixing strings and components (the former finding C17.nbt.mixed-args, repaired
+   in /repo) is inside the guard. *)
+Theorem C17_wire_wellformed : forall m rest, msg_ok m = true ->
   wf_tag (to_nbt m) = true /\
   dec_net (wire m ++ rest) = Some (TComp (fields_of (is_nil (m_translate m)) m), rest) /\
   map fst (fields_of (is_nil (m_translate m)) m) = expected_keys (is_nil (m_translate m)) m.
 Proof.
   intros m rest H. split; [apply wf_to_nbt; exact H|]. split; [apply wire_wf; exact H | apply wire_keys].
 Qed.
-Theorem C17_wire_rt_partial : forall m rest, msg_ok m = true ->
+Theorem C17_wire_rt : forall m rest, msg_ok m = true ->
   msg_read (wire m ++ rest) = Some (norm m, rest).
 Proof. exact wire_rt. Qed.
-Theorem C17_wire_encodes_partial : forall m, msg_ok m = true -> wire_opt m = Some (wire m).
+Theorem C17_wire_encodes : forall m, msg_ok m = true -> wire_opt m = Some (wire m).
 Proof. exact wire_opt_ok. Qed.
-Theorem C17_wire_encodes_refuted :
-  exists m, homog m = false /\ wire_opt m = None /\ of_json (to_json m) = Some (norm m).
-Proof. exact wire_mixed_refuted. Qed.
-Theorem C17_forms_agree_partial : forall m, msg_ok m = true ->
+(* a mixed argument list is written as a list of compounds: the components as they are, a bare string z
+   as the text-only component {text: z} (what vanilla writes, and what norm identifies z with) *)
+Theorem C17_wire_mixed_args : forall ft t s h tr w e, mixed_args w = true ->
+  In (k_with, TList idCompound (map arg_comp_tag w)) (fields_of ft (Msg t s h tr w e)).
+Proof. exact wire_mixed_image. Qed.
+Theorem C17_forms_agree : forall m, msg_ok m = true ->
   match msg_read (wire m) with Some (x, _) => Some x | None => None end = of_json (to_json m).
 Proof. exact forms_agree. Qed.
 
@@ -71,12 +74,12 @@ Proof.
 Qed.
 
 (* ---- chat.Type header: VarInt id, sender, flag, optional target; any following bytes untouched *)
-Theorem C17_type_rt_partial : forall id sender target rest, in_sw 32 id -> msg_ok sender = true ->
+Theorem C17_type_rt : forall id sender target rest, in_sw 32 id -> msg_ok sender = true ->
   match target with Some t => msg_ok t = true | None => True end ->
   type_read (type_write id sender target ++ rest)
   = Some (id, norm sender, match target with Some t => Some (norm t) | None => None end, rest).
 Proof. exact type_rt. Qed.
-Theorem C17_type_encodes_partial : forall id sender target, msg_ok sender = true ->
+Theorem C17_type_encodes : forall id sender target, msg_ok sender = true ->
   match target with Some t => msg_ok t = true | None => True end ->
   type_write_opt id sender target = Some (type_write id sender target).
 Proof. exact type_write_opt_ok. Qed.
@@ -122,6 +125,14 @@ Definition ex_msg : msg :=
       [Msg [] style0 None [107;48] [] []].
 Example C17_ex_ok : msg_ok ex_msg = true /\ no_bare ex_msg = true.
 Proof. split; vm_compute; reflexivity. Qed.
+(* the counter-example of the former finding (With: {"x", Text("y")}): inside the guard, written, read
+   back to the normalised component, and in agreement with the JSON form *)
+Example C17_ex_mixed :
+  mixed_args (m_with mixed_witness) = true /\ msg_ok mixed_witness = true /\
+  wire_opt mixed_witness = Some (wire mixed_witness) /\
+  msg_read (wire mixed_witness) = Some (norm mixed_witness, []) /\
+  of_json (to_json mixed_witness) = Some (norm mixed_witness).
+Proof. exact wire_mixed_witness. Qed.
 Example C17_ex_type : in_sw 32 300 /\ type_read (type_write 300 ex_msg (Some (text_msg [116])))
                                       = Some (300%Z, ex_msg, Some (text_msg [116]), []).
 Proof. split; [unfold in_sw; simpl; split; [discriminate|reflexivity] | vm_compute; reflexivity]. Qed.
@@ -139,15 +150,15 @@ Print Assumptions C17_json_rt.
 Print Assumptions C17_norm_id.
 Print Assumptions C17_norm_no_bare.
 Print Assumptions C17_reader_inverts_encoder.
-Print Assumptions C17_wire_wellformed_partial.
-Print Assumptions C17_wire_rt_partial.
-Print Assumptions C17_wire_encodes_partial.
-Print Assumptions C17_wire_encodes_refuted.
-Print Assumptions C17_forms_agree_partial.
+Print Assumptions C17_wire_wellformed.
+Print Assumptions C17_wire_rt.
+Print Assumptions C17_wire_encodes.
+Print Assumptions C17_wire_mixed_args.
+Print Assumptions C17_forms_agree.
 Print Assumptions C17_accepts_nbt.
 Print Assumptions C17_accepts_json.
-Print Assumptions C17_type_rt_partial.
-Print Assumptions C17_type_encodes_partial.
+Print Assumptions C17_type_rt.
+Print Assumptions C17_type_encodes.
 Print Assumptions C17_strip_removes.
 Print Assumptions C17_strip_keeps.
 Print Assumptions C17_strip_length.
